@@ -125,4 +125,21 @@ def step (cfgs : List ModuleCfg) (s : NState) (k : String × String) (e : Ev) : 
 def shiftTimes (d : Int) (s : NState) : NState :=
   s.map fun (k, g) => (k, { g with start := g.start.map (· - d), lastNotify := g.lastNotify.map fun (m, t) => (m, t - d) })
 
+/-- one refresh of the group records from storage's listings (`processClusterList` +
+    `processConsumerList`).  `listing`: the clusters storage lists, each with its groups.
+    `answered c`: storage took the consumer-list request for cluster `c` — a request that is not taken
+    within a second is given up (`TimeoutSendStorageRequest`), and then that cluster's records stay as
+    they are.  Clusters that are no longer listed disappear with their groups; in an answered cluster
+    unlisted groups go and new groups get a fresh record; every other record is kept as it is. -/
+def refresh (listing : List (String × List String)) (answered : String → Bool) (s : NState) : NState :=
+  let s1 := s.filter fun kv => listing.any (·.1 == kv.1.1)
+  listing.foldl (fun acc cg =>
+    if answered cg.1 then
+      let kept := acc.filter fun kv => kv.1.1 != cg.1 || cg.2.contains kv.1.2
+      cg.2.foldl (fun a g =>
+        match lookupG (cg.1, g) a with
+        | some _ => a
+        | none => a ++ [((cg.1, g), GroupRec.fresh)]) kept
+    else acc) s1
+
 end Burrow.Notifier
